@@ -188,6 +188,29 @@ def rule_pandas(ctx):
                           f"encoding: whether a column is encoded must not depend on the value of some of its cells (a NULL or a string in the "
                           f"first row hands raw dicts to DuckDB)")
     ctx.floor("C01.c encoder paths", n_enc, 2)
+    # C01.c5: apart from that encoding the frame's cells reach the engine as the caller supplied them: the insert path stores
+    # nothing else into a column (allow-list of one idiom, the applied encoder; anything else rewrites caller values)
+    n_st = 0
+    seen_st = set()
+    for p in explore(prog, lambda: ExecHooks(None), run, max_paths=32):
+        if p.outcome != "return":
+            continue
+        for e in p.effects:
+            if e[0] != "setitem":
+                continue
+            n_st += 1
+            t = tagof(e[3])
+            ok = any(x in t for x in (".apply(", ".map(", ".applymap(", ".transform("))
+            if t in seen_st:
+                continue
+            seen_st.add(t)
+            ctx.ob("C01.c5", "a column is rewritten only by the dict/list JSON encoder", ok, m.loc(fn), t[:80])
+            if not ok:
+                ctx.violation("C01.c5", "pandas_tools", helper, f"column rewritten with {t[:80]}", m.loc(fn),
+                              f"before the INSERT a dataframe column is replaced by `{t[:100]}`, which is not the dict/list JSON encoding: "
+                              f"write_pandas must hand the caller's values to the engine unchanged (a conversion such as dropping a time "
+                              f"zone, rounding or casting stores a different value than was written)")
+    ctx.floor("C01.c5 column stores", n_st, 1)
     # dict/list cells are json-encoded: the callable applied to the object columns (found through the effect trace, wherever
     # it is defined) dumps exactly the dict / list cells
     def encodes(fnode) -> bool:
